@@ -177,9 +177,16 @@ def pt_registry():
 
     def stmt_hook(ip, st, frame):
         # remember the step counter at loop entry (ghost)
+        # (at the statement that encloses or is the step loop -- `with progress(..)`, `try:` or the loop itself -- whichever comes
+        # first outside the loop; the ghost must not depend on how the progress reporter is entered)
         import ast
-        if isinstance(st, ast.With) and frame.qualname == 'pt_tempo.PtTempo.compute':
-            ip.ghost['pt']['s_entry'] = ip.lookup_name('self', frame).fields['_backend_instance'].fields['step']
+        if isinstance(st, (ast.With, ast.Try, ast.While, ast.For)) and frame.qualname == 'pt_tempo.PtTempo.compute' \
+                and not ip.ghost['pt'].get('loop_reached'):
+            step = ip.lookup_name('self', frame).fields['_backend_instance'].fields['step']
+            if step is not None:
+                ip.ghost['pt']['s_entry'] = step
+            if isinstance(st, (ast.While, ast.For)):
+                ip.ghost['pt']['loop_reached'] = True
     R.stmt_hook = stmt_hook
     return R
 
